@@ -80,12 +80,13 @@ def interval_max(body, e, facts, depth=0):
                 return ma >> b[1]
     if k == "var" and body.is_closure and depth < 3:
         # closure parameter iterating a constant range
-        if e == V(body.local_name.get(2, "arg2")):
-            p = closure_passed_to(facts, body)
-            if p is not None:
-                recv = norm(p[0].call_args(p[2])[0])
-                if recv[0] == "agg" and recv[2].endswith("Range::Range") and recv[3][1][0] == "const":
-                    return recv[3][1][1] - 1
+        p = closure_passed_to(facts, body)
+        # for_each / map / all / any hand the element over as the first parameter, fold as the second
+        pos = 3 if (p is not None and callee_matches(p[0].callee_of(p[2]), "Iterator::fold")) else 2
+        if p is not None and e == V(body.local_name.get(pos, "arg%d" % pos)):
+            recv = norm(p[0].call_args(p[2])[0])
+            if recv[0] == "agg" and recv[2].endswith("Range::Range") and recv[3][1][0] == "const":
+                return recv[3][1][1] - 1
     if k == "var":
         ex = norm(body.expand(e))
         if ex != e and depth < 4:
@@ -522,7 +523,25 @@ def check_builder_plumbing(rep, fl, rule="R20.5", skip_sites=(), only_sites=None
         sts = [expand_state(fin, s, hist=True) for s in at.get((mo[0][0], term_idx(fin, mo[0][0])), set())]
         ok = bool(sts) and all(feval(A(F(inner, "metrics")), s) is True for s in sts)
         cm = calls_to(fin, fl.policy + "::collect_metrics")
-        ok = ok and len(cm) == 1 and block_dominates(fin, mo[0][0], cm[0][0])
+        ok = ok and len(cm) == 1
+        if ok:
+            # the policy is handed the metrics exactly when the flag is set: in the same branch as new_op, or in a
+            # later `if flag { policy.collect_metrics(..) }`
+            import props_cache
+
+            def lab_(bi_, t_):
+                return "share" if t_ is cm[0][1] else ("op" if t_ is mo[0][1] else None)
+            outs_, _at = props_cache.count_paths(fin, lab_)
+            ok = bool(outs_)
+            for s_, cnt_ in outs_:
+                es_ = expand_state(fin, s_, hist=True)
+                if any(a_[0] == "variant" and a_[2] == "Break" and v_ for a_, v_ in es_.lits):
+                    continue  # an error return (`?`): no cache is built
+                flag_ = feval(A(F(inner, "metrics")), es_)
+                # a path that never looked at the flag left before the metrics were set up (a rejected configuration)
+                want_ = {"op": 1, "share": 1} if flag_ is True else {}
+                if cnt_ != want_:
+                    ok = False
     rep.check(ok, rule, fl, fin, "metrics flag", "Op metrics (shared with the policy) are created exactly when the metrics flag is set", "the metrics flag no longer decides whether Op metrics are created and shared with the policy")
     cache_f = None
     for bi, si, st, e in agg_nodes(fin, fl.cache.split("::")[-1]):
